@@ -75,15 +75,16 @@ def execute_plan(world, plan, prop, keep_events=False):
     buf = io.StringIO()
     viol = None
     sample = None
-    hang_s = getattr(world, "HANG_S", 40)
+    # budget in CPU seconds of this process (ITIMER_VIRTUAL), so that a loaded machine cannot turn a slow run into a "hang"
+    hang_s = getattr(world, "HANG_S", 150)
 
     def on_alarm(signum, frame):
         raise SimHang()
 
     can_alarm = threading.current_thread() is threading.main_thread()
     if can_alarm:
-        old_handler = signal.signal(signal.SIGALRM, on_alarm)
-        signal.setitimer(signal.ITIMER_REAL, hang_s)
+        old_handler = signal.signal(signal.SIGVTALRM, on_alarm)
+        signal.setitimer(signal.ITIMER_VIRTUAL, hang_s)
     with contextlib.redirect_stdout(buf):
         try:
             sample = world.execute(plan, prop, trace)
@@ -91,14 +92,14 @@ def execute_plan(world, plan, prop, keep_events=False):
             viol = v
         except SimHang:
             label = getattr(trace, "hang_label", None) or ("after_" + getattr(trace, "last_ev", "start"))
-            viol = Violation(prop, "HANG", label, f"the run did not come back within {hang_s} s of wall-clock time (ordinary runs of this world take well under a second): the library operation '{label}' never returns")
+            viol = Violation(prop, "HANG", label, f"the run did not come back within {hang_s} s of CPU time (ordinary runs of this world take a small fraction of that): the library operation '{label}' never returns")
             if viol.signature in trace.soft:
                 trace.soft_hits[viol.signature] = trace.soft_hits.get(viol.signature, 0) + 1
                 viol = None
         finally:
             if can_alarm:
-                signal.setitimer(signal.ITIMER_REAL, 0)
-                signal.signal(signal.SIGALRM, old_handler)
+                signal.setitimer(signal.ITIMER_VIRTUAL, 0)
+                signal.signal(signal.SIGVTALRM, old_handler)
     res = trace.result()
     res["sample"] = sample
     if keep_events:
@@ -138,7 +139,7 @@ def _run_batch(args):
     }
     for item in items:
         kind, key, plan = item
-        faulthandler.dump_traceback_later(per_run_timeout, exit=True)
+        faulthandler.dump_traceback_later(max(per_run_timeout, 8 * getattr(world, "HANG_S", 150)), exit=True)
         try:
             if plan is None:
                 plan = _plan_for(world, prop, tier, seed, key)
